@@ -250,10 +250,35 @@ def _py_and_node(spec):
     raise ValueError(t)
 
 
+def check_boolean_bytes(case):
+    """Every byte value of a BOOLEAN item as a peer may send it (E5: zero is false, everything else true), alone, in an array, in a list."""
+    Item = item_mod()  # noqa: N806
+    out = []
+    for b in range(case["lo"], case["hi"]):
+        t = b != 0
+        for shape, data, node in (("alone", bytes([0x25, 1, b]), ("BOOLEAN", [t])),
+                                  ("array", bytes([0x25, 3, b, 0, b]), ("BOOLEAN", [t, False, t])),
+                                  ("two-length-bytes", bytes([0x26, 0, 1, b]), ("BOOLEAN", [t])),
+                                  ("in-list", bytes([0x01, 2, 0x25, 1, b, 0xA5, 1, 7]), ("L", [("BOOLEAN", [t]), ("U1", [7])]))):
+            for tname, cls in (("Item", Item), (node[0], icls(node[0]))):
+                try:
+                    it = cls.decode(data)
+                    again = it.encode()
+                    val = it.value
+                except Exception as exc:  # noqa: BLE001
+                    out.append((f"C14|boolean-byte-decode-raises|{shape}|{tname}", {"case": case, "byte": b, "error": repr(exc), "bytes": data.hex()}))
+                    continue
+                if again != e5.enc(node) or not _decoded_value_equal(node, val):
+                    out.append((f"C14|boolean-nonzero-byte-not-true|{shape}|{tname}", {"case": case, "byte": b, "value": repr(val), "reencoded": again.hex()}))
+    return {"v": out, "nt": True}
+
+
 def check_case(case):
     k = case["kind"]
     if k == "leaf":
         return check_leaf(case)
+    if k == "boolbytes":
+        return check_boolean_bytes(case)
     if k == "decode":
         return check_decode(case)
     if k == "from_value":
@@ -308,6 +333,8 @@ def cases(ctx):
             d = {"code": "F8", "bits": [(sign << 63) | (e << 52) | m for m in mant8]}
             yield {"kind": "leaf", "desc": d}
             yield {"kind": "decode", "desc": d}
+    for lo in range(0, 256, 32):
+        yield {"kind": "boolbytes", "lo": lo, "hi": lo + 32}
     # trees
     limit = 6 if thorough else 5
     seen = set()
